@@ -62,10 +62,13 @@ def eval_family(ev, mods, imps, s, o, acc, tagbase):
     for d in rrule.DIRS:
         todo.append((("any", d), {"verb": "should_not", "dir": d, "exc": False, "subs": [s], "objs": [], "anything": True}))
         todo.append((("self", d), cfg_of("should_not", d, True, s, s)))
-    for label, cfg in todo:
+    decoys = [m for m in mods if "." in m and m not in (s[1], o[1])]
+    for i, (label, cfg) in enumerate(todo):
         HUB.tag = (tagbase, label)
         HUB.case = {"kind": "family", "mods": mods, "imps": imps, "s": s, "o": o}
-        run(mk_rule(cfg), ev)
+        # every third rule of a family is built by re-targeting a kept, already applied rule prefix
+        rt = (ev, decoys[i % len(decoys)]) if decoys and (i + len(mods)) % 3 == 0 else None
+        run(mk_rule(cfg, retarget=rt), ev)
         acc.evaluated()
     HUB.tag = None
     out = {}
@@ -188,6 +191,9 @@ def regex_family(ev, mods, imps, rx, o, acc, pre_drop=None):
         for d in rrule.DIRS:
             for exc in (False, True):
                 out[("so", verb, d, exc)] = apply(cfg_of(verb, d, exc, s, o))
+    from ..drive import hostile_reads
+
+    hostile_reads(ev, mods)  # between the two halves of the law the caller reads (and scribbles on) accessor results
     for verb in ("should", "should_not"):
         for d in rrule.DIRS:
             # the dual rule is a fresh object applied to this architecture only
